@@ -363,6 +363,22 @@ theorem C13_bound_lzwdecode (data : Bytes) :
     rwa [e] at this
   · rw [Filters.lzwRunB_err _ _ _ _ _ _ h]; decide
 
+/-- Predictors on ARBITRARY parameters (Colors, Columns, BitsPerComponent any natural numbers — zero, huge,
+inconsistent with the data) and arbitrary data: the output is never longer than the input.  (Their errors —
+IndexError on a short row, ValueError for a zero row length, PDFValueError — are covered by
+`C13_family_stream_decode`; C03's `png_fuel` / `tiff_fuel` show that one unit of fuel per input byte suffices.) -/
+theorem C13_bound_predictors (colors columns bpc : Nat) (data out : Bytes) :
+    (Filters.apply_png_predictor colors columns bpc data = .ok out → out.length ≤ data.length) ∧
+    (Filters.apply_tiff_predictor colors columns bpc data = .ok out → out.length ≤ data.length) :=
+  ⟨Filters.apply_png_predictor_len _ _ _ _ _, Filters.apply_tiff_predictor_len _ _ _ _ _⟩
+
+/-- Non-vacuity: zero columns (every byte is a row of its own), a short last row, an unknown filter type. -/
+example : Filters.apply_png_predictor 1 0 8 [0, 1, 2] = .ok [] := by decide
+example : Filters.apply_png_predictor 1 2 8 [1, 5, 5, 2, 7] = .ok [5, 10, 12] := by decide
+example : Filters.apply_png_predictor 1 2 8 [7, 5, 5] = .error .pdfValue := by decide
+example : Filters.apply_tiff_predictor 1 2 8 [1, 2, 3] = .error .indexError := by decide
+example : Filters.apply_tiff_predictor 0 2 8 [1, 2, 3] = .error .valueError := by decide
+
 /-- `PDFStream.decode` (non-STRICT), whole filter chain with predictors, on every payload and every
 Filter/DecodeParms value of the model: it returns data, or raises a `PDFException` (PDFValueError for an unknown
 predictor, PDFNotImplementedError for an unsupported filter; `outOfModel` marks CCITTFax, which C02 models) —
